@@ -147,7 +147,7 @@ def build(x):
 
 def mk_filter(f):
     k, op = f["k"], f.get("op", "=")
-    name = {"type": "type", "id": "id", "pay": "x_pay", "mod": "modified"}.get(k) or f["p"]
+    name = {"type": "type", "id": "id", "pay": "x_pay", "mod": "modified", "cre": "created"}.get(k) or f["p"]
     return stix2.Filter(name, op, f["v"])
 
 
